@@ -110,6 +110,8 @@ where
     }
 
     let mut hermite = polynomial![N::zero()];
+    // purge_leading below must use the caller's tolerance, not the default one
+    hermite.set_tolerance(tol)?;
     for i in (1..2 * xs.len()).rev() {
         hermite += qs[i + i * (2 * xs.len())];
         hermite *= polynomial![N::one(), -xs[(i - 1) / 2]];
